@@ -77,7 +77,7 @@ def make_idx_class(f):
             return "self"
         if getattr(v, "is_Integer", False):
             return "zero" if v == 0 else "const%d" % int(v)
-        if str(getattr(v, "func", "")) == "mod" and len(v.args) == 2:
+        if str(getattr(v, "func", "")) in ("mod", "imod") and len(v.args) == 2:
             num, den = v.args
             if str(den) in ("nthreads_", "app_->nthreads_"):
                 d = sp.expand(num - 1)
